@@ -6,7 +6,9 @@ package c01
 
 import (
 	"bytes"
+	"crypto/sha256"
 	"encoding/json"
+	"hash"
 	"fmt"
 	"math/big"
 	"reflect"
@@ -18,6 +20,7 @@ import (
 	"verifharness/lib/prog"
 	"verifharness/lib/zk"
 
+	"github.com/consensys/gnark/backend"
 	"github.com/consensys/gnark/backend/groth16"
 	"github.com/consensys/gnark/backend/witness"
 	"github.com/consensys/gnark/logger"
@@ -238,7 +241,46 @@ func run(c Case, rec *ev.Recorder) ev.Outcome {
 		applied++
 		classes = append(classes, "variant:"+v.Kind+":"+v.Op, fmt.Sprintf("cell:%s:commit=%v", v.Kind, nc > 0))
 	}
+	// binding of the commitment challenge: the data hashed into the challenge of a commitment
+	// must include the committed PUBLIC inputs (the private ones are bound by the Pedersen
+	// commitment itself). Observable with a recording hash-to-field function.
+	if pc := zk.Elem(g.VK).FieldByName("PublicAndCommitmentCommitted"); pc.IsValid() {
+		for ci := 0; ci < pc.Len(); ci++ {
+			for k := 0; k < pc.Index(ci).Len(); k++ {
+				wire := int(pc.Index(ci).Index(k).Int()) // 1-based index into the public witness
+				if wire < 1 || wire > len(G.pub) {
+					continue
+				}
+				written := func(pub []*big.Int) []byte {
+					r := &recHash{Hash: sha256.New()}
+					_ = zk.VerifyG16(G.proof, g.VK, mkPub(q, pub), backend.WithVerifierHashToFieldFunction(r))
+					return r.written
+				}
+				alt := make([]*big.Int, len(G.pub))
+				for i := range alt {
+					alt[i] = new(big.Int).Set(G.pub[i])
+				}
+				alt[wire-1].Add(alt[wire-1], big.NewInt(1)).Mod(alt[wire-1], q)
+				a, b := written(G.pub), written(alt)
+				if len(a) > 0 && bytes.Equal(a, b) {
+					return ev.Outcome{Violation: fmt.Sprintf("commitment %d commits public input %d, but the data hashed into its challenge is identical for public inputs %v and %v", ci, wire, G.pub, alt)}
+				}
+				classes = append(classes, "commitment-challenge-binding-checked")
+			}
+		}
+	}
 	return ev.Outcome{NonTrivial: applied > 0, Classes: classes}
+}
+
+// recHash records everything written into it.
+type recHash struct {
+	hash.Hash
+	written []byte
+}
+
+func (r *recHash) Write(p []byte) (int, error) {
+	r.written = append(r.written, p...)
+	return r.Hash.Write(p)
 }
 
 func firstLine(s string) string {
